@@ -46,6 +46,20 @@ func genC04Bulk(t *rapid.T) CrashCase {
 	return CrashCase{Case: c, Bulk: true, Sample: rapid.IntRange(6, 10).Draw(t, "sample")}
 }
 
+// genC04Timed: the C04 workloads, killed from outside at generated moments (thousandths of the run).
+func genC04Timed(t *rapid.T) CrashCase {
+	cc := genC04(t)
+	cc.RecEvery = 0
+	cc.Timed = true
+	n := rapid.IntRange(6, 14).Draw(t, "kills")
+	for i := 0; i < n; i++ {
+		cc.KillAtPermille = append(cc.KillAtPermille, rapid.IntRange(0, 1000).Draw(t, "permille"))
+	}
+	return cc
+}
+
+func TestC04Timed(t *testing.T) { ev.Check(t, "C04", "timed", genC04Timed, ExecC04Timed) }
+
 func TestC04Bulk(t *testing.T) { ev.Check(t, "C04", "bulk", genC04Bulk, ExecC04) }
 
 func genC05(t *rapid.T) Case {
